@@ -55,6 +55,8 @@ def c01(res, wd):
     nl, fl = sizes(res.tier, (2, 2000), (6, 12000))
     ps += plans.batch(res.seed * 1000 + 2, nl, fl, p_pause=0.0)
     ps += plans.batch(res.seed * 1000 + 9, sizes(res.tier, 6, 40), 300, fam=plans.tight)
+    # four-byte inputs: endpoints join / split several bytes per player (the first conformance sample is one of them)
+    ps = plans.batch(res.seed * 1000 + 13, sizes(res.tier, 5, 30), 300, fam=plans.wide) + ps
     engines.obs_runs(res, "C01", ps, {"C01"}, wd, "c01", nontrivial=_rollback_nontrivial)
     engines.conform_sample(res, "C01", ps, wd, "c01", sizes(res.tier, 3, 12))
     res.rule = ("(1) exhaustive TLC exploration of System.tla (2 peers, inputs {0,1}, every tick interleaving, "
@@ -452,6 +454,8 @@ def c06(res, wd):
     rng = random.Random(res.seed * 1000 + 60)
     ps = [_spec_plan(rng, frames) for _ in range(n)]
     ps += [_host_disc_plan(rng, frames) for _ in range(max(4, n // 2))]
+    for pl in ps[::4]:
+        pl["cfg"]["wide"] = True         # four-byte inputs (the host joins all players' inputs for its spectators)
     outs = engines.obs_runs(res, "C06", ps, {"C06"}, wd, "c06",
                             nontrivial=lambda st, pl: st["specAdv"] >= 50)
     # ring boundary sweep: pauses of 54..66 host frames (thorough: 48..72, one and two local players)
@@ -1052,6 +1056,8 @@ def c08(res, wd):
                                                     [0xff] * 10, [1, 0, 0], [3]]
     n, frames = sizes(res.tier, (16, 200), (120, 800))
     ps = [_forge_plan(rng, frames, payloads) for _ in range(n)]
+    for pl in ps[::3]:
+        pl["cfg"]["wide"] = True         # four-byte inputs: the size checks see frames of 4 bytes per player
     outs = engines.obs_runs(res, "C08", ps, {"C01", "C03", "C02", "C12", "C06"}, wd, "c08",
                             nontrivial=lambda st, pl: st.get("forgedPackets", 0) >= 5)
     # connection state: packets of every kind with another session's magic number (and packets from unknown
@@ -1423,6 +1429,8 @@ def c17(res, wd):
     n, frames = sizes(res.tier, (12, 150), (60, 500))
     rng = random.Random(res.seed * 1000 + 170)
     ps = [_order_plan(rng, frames, ["locals", "many", "drop", "spec"][i % 4]) for i in range(n)]
+    for pl in ps[::5]:
+        pl["cfg"]["wide"] = True
     # TLC-generated schedules for the 2+1-local-players and the 3-peer model are repeated as well
     scheds = []
     for tag, over in (("g21", {"Peers": "GenPeers21", "NumPlayers": 3, "MaxFrame": 6, "MaxSteps": 70, "DelayValues": "{0, 1}"}),
